@@ -125,7 +125,17 @@ class FunctionVerifier:
                 continue
             t = c.params.get(n)
             if t is None:
-                raise VError(f'contract of {fq} declares no type for parameter {n}')
+                # a parameter the contract does not know (added with a default): typed after its default
+                k = i - (len(names) - len(defaults))
+                d = defaults[k] if 0 <= k < len(defaults) else None
+                if isinstance(d, ast.Constant) and isinstance(d.value, bool):
+                    t = TBool
+                elif isinstance(d, ast.Constant) and isinstance(d.value, int):
+                    t = TInt
+                elif isinstance(d, ast.Constant) and isinstance(d.value, bytes):
+                    t = TBytes
+                else:
+                    raise VError(f'contract of {fq} declares no type for parameter {n}')
             p.env[n] = fresh(t, n)
         self.lib.type_assumptions(ex, p)
         return fi, c, p
